@@ -89,9 +89,14 @@ def run_world(world, idx=0, timeout=300, hashseed='0', extra_env=None, keep=Fals
         spec['warmup_world'] = wp
     if 'warnings' in world:
         spec['warnings'] = world['warnings']
+    if world.get('pre_parse'):
+        spec['pre_parse'] = world['pre_parse']
     if 'child_cwd' in world:
         spec['child_cwd'] = world['child_cwd']
     env = fw.impl_env(dict(extra_env or {}, VW_WORLD=wpath, VW_TRACE=trace), hashseed)
+    if world.get('pythonwarnings'):
+        # the user configured the warnings of the interpreter (python -W … / PYTHONWARNINGS): sys.warnoptions is not empty
+        env['PYTHONWARNINGS'] = world['pythonwarnings']
     try:
         p = subprocess.run([fw.PY, os.path.join(fw.HARNESS, 'drive_world.py')], input=json.dumps(spec), text=True,
                            stdout=subprocess.PIPE, stderr=subprocess.PIPE, env=env, timeout=timeout, cwd=d)
